@@ -241,7 +241,7 @@ def summarize(case):
 
 
 def parts(tier):
-    return [
+    out = [
         Part(
             name="scene",
             evaluate=evaluate,
@@ -251,6 +251,22 @@ def parts(tier):
             summarize=summarize,
         )
     ]
+    if tier == "thorough":
+        # same scenes and identity oracle, searched by libFuzzer guided by branch coverage of the tracking package
+        from checks.c09 import TRACKING_MODULES
+
+        out.append(
+            Part(
+                name="scene-coverage-guided",
+                evaluate=evaluate,
+                strategy=lambda: strategy(16),
+                budget={"thorough": 48000},
+                min_nontrivial={"thorough": 1000},
+                summarize=summarize,
+                fuzz={"instrument": ["sleap_nn.tracking", "sleap_nn.evaluation"], "modules": TRACKING_MODULES + ["sleap_nn.evaluation"]},
+            )
+        )
+    return out
 
 
 if __name__ == "__main__":
